@@ -7,7 +7,7 @@ from checks import evalfam, evalcheck
 def run():
     ck = Check("C03")
     thorough = ck.tier == "thorough"
-    fam = evalfam.c03_binding_grid() + evalfam.c03_scope_family()
+    fam = evalfam.c03_binding_grid() + evalfam.c03_scope_family() + evalfam.c03_proplike_names()
     res1, st1 = evalcheck.run_family(ck, "C03", fam, "families")
     g = evalfam.Gen(ck.rng, maxdepth=4 if thorough else 3)
     rnd = [("random", g.program()) for _ in range(60000 if thorough else 2500)]
@@ -20,7 +20,7 @@ def run():
     ck.cov["distinct_nontrivial"] = probes
     ck.cov["traces_validated_against_impl"] = st1["ok"] + st2["ok"] + st1["mismatch"] + st2["mismatch"]
     ck.cov["rule"] = ("exhaustive grids: parameter/argument counts 0..3 x 0..4 (plain, *spread, method), keyword parameters x passed keywords x 3 "
-                      "layouts x 0..2 positionals, **unpacking; 64 closure scenarios (shadowing, local/compound assignment, reassignment after "
+                      "layouts x 0..2 positionals, **unpacking (also with keyword names that are properties of every object: max, keys, p, new, ...); 64 closure scenarios (shadowing, local/compound assignment, reassignment after "
                       "creation, sibling call, nesting), recursion depths 0..3, receiver/anonymous-chain/index-then-call, zero-argument \\\\0; plus seeded "
                       "random nested programs with a probe after every statement. non-trivial = accepted runs in which a probe fired inside a call "
                       "(>= 2 frames visible)")
